@@ -90,6 +90,9 @@ def make_cases(ctx):
             cases.append({"kind": "lint", "files": nodry, "argv": [cmd], "targets": ["."], "id": "hostile-nodry-%s:%s" % (tag, cmd),
                           "text_unparsable_names": tag == "names-nontext"})
     simple = {"pkg/bad\udcff.py": "def f(a):\n    return a * 4217\n", "pkg/new\nline.py": "def g(a):\n    return a * 4218\n",
+              "pkg/trunc_\udce2\udc82.py": "def t(a):\n    print(a)\n    return a * 4220\n",      # a euro sign missing its last byte
+              "pkg/emoji_\udcf0\udc9f\udc98.py": "def e(a):\n    print(a)\n    return a * 4221\n",  # an emoji cut short
+              "pkg/mixed_\udcff_\u00e9_\udce2\udc82\udcac_.py": "def m(a):\n    print(a)\n    return a * 4222\n",
               "pkg/ok.py": "def h(a):\n    print(a)\n    return a * 4219\n"}
     for cmd in ("magic-numbers", "improper-logging", "file-header"):
         cases.append({"kind": "lint", "files": simple, "argv": [cmd], "targets": ["."], "id": "surrogate-simple:%s" % cmd,
